@@ -142,6 +142,8 @@ Mutations(f) ==
   \* the provisional index reference removed AND the anchor count set to the number of deactivates (so that only the
   \* missing reference can be the reason for rejecting); a second chunk reference in the provisional index
   \cup {[k |-> "dropProvisional", l |-> "", i |-> 0, to |-> 0], [k |-> "addChunkRef", l |-> "", i |-> 0, to |-> 0]}
+  \* the chunk entry is there but names no file ({} / "" / null; the harness lets CAS serve the chunk file under the empty address)
+  \cup {[k |-> "blankChunkRef", l |-> "", i |-> i, to |-> 0] : i \in 1..3}
 
 Applicable(f, m) ==
   CASE m.k \in {"dropIdx", "dupIdx"} -> m.i <= Len(IdxGet(f, m.l))
@@ -157,6 +159,7 @@ Applicable(f, m) ==
     [] m.k = "count" -> f.count + m.i >= 0
     [] m.k = "dropProvisional" -> f.coreIndex.provRef /\ Len(f.coreIndex.deactivate) >= 1
     [] m.k = "addChunkRef" -> f.provIndex # None /\ f.provIndex.chunkRef /\ ~f.provIndex.extraChunk
+    [] m.k = "blankChunkRef" -> f.provIndex # None /\ f.provIndex.chunkRef
 
 Apply(f, m) ==
   CASE m.k = "dropIdx"  -> IdxSet(f, m.l, DelAt(IdxGet(f, m.l), m.i))
@@ -174,6 +177,7 @@ Apply(f, m) ==
     [] m.k = "count" -> [f EXCEPT !.count = @ + m.i]
     [] m.k = "dropProvisional" -> [f EXCEPT !.coreIndex.provRef = FALSE, !.count = Len(f.coreIndex.deactivate)]
     [] m.k = "addChunkRef" -> [f EXCEPT !.provIndex.extraChunk = TRUE]
+    [] m.k = "blankChunkRef" -> [f EXCEPT !.provIndex.chunkRef = FALSE]
 
 Mutate == /\ Len(batch) >= 1 /\ Len(muts) < MaxMut /\ opaque = "none"
           /\ \E m \in Mutations(files) : Applicable(files, m) /\ files' = Apply(files, m) /\ muts' = Append(muts, m)
@@ -197,6 +201,11 @@ Next == Grow \/ Mutate \/ Opaque
 
 ---------------------------------------------------------------------------
 (* C13 *)
+(* RoundTrip is stated for EVERY configuration of the per-file size limits under which each operation of the batch  *)
+(* is anchorable on its own: the writer knows the limits of its protocol version, so a batch whose files the reader *)
+(* would refuse must not be anchored as such.  "tight:f": the limit of file f is below what the files of this batch *)
+(* need but at least what a batch of any single one of its operations needs (realised by the harness on bytes).     *)
+LimitClasses == {"roomy"} \cup {"tight:" \o f : f \in {"coreIndex", "coreProof", "provIndex", "provProof", "chunk"}}
 RoundTrip == (muts = <<>> /\ opaque = "none" /\ Len(Inc(batch)) >= 1) => Read(files) = Ok(Expected(batch))
 Accounting == LET ids(s) == {s[i].id : i \in DOMAIN s} IN
               /\ ids(Inc(batch)) \cup ids(Def(batch)) \cup ids(Exp(batch)) = ids(batch)
